@@ -892,6 +892,13 @@ int __wrap_pthread_create(pthread_t *thr, const pthread_attr_t *attr, void *(*fn
 int __wrap_pthread_mutex_lock(pthread_mutex_t *m)
 {
     struct op o = { .kind = OP_LOCK, .cls = mutex_of(m)->cls, .obj = m };
+    if (self && self->alive && mutex_of(m)->owner == self->id) {
+        /* a default (non-recursive) mutex locked by the thread that holds it: that thread hangs for good.  Reported
+         * at once and by name (status=self-deadlock) instead of leaving the thread blocked until -- if ever --
+         * nothing else can run. */
+        fprintf(stdout, "I %s self-lock %s\n", self->name, mutex_of(m)->name);
+        finish("self-deadlock", 0);
+    }
     return (int) sched_do(o)->ret;
 }
 int __wrap_pthread_mutex_unlock(pthread_mutex_t *m)
